@@ -109,6 +109,11 @@ def _check(case, ctx, memloc):
     )
     link.connect()
     inp = link.inputs[0]
+    # unit of the publication gaps: a minute (default), a second, 50 ms, a microsecond - request times then carry
+    # fractions of a second
+    unit = timedelta(microseconds=int(case.get("unit_us") or 60_000_000))
+    if case.get("unit_us"):
+        ctx.event(f"gap-unit={case['unit_us']}us")
     vscale = 10.0 ** int(case.get("vexp", 0))  # numeric scale of the published numbers; tolerances are relative to it
     if vscale != 1.0:
         ctx.event(f"value-scale=1e{case['vexp']}")
@@ -128,7 +133,7 @@ def _check(case, ctx, memloc):
     for op in ops_of(case):
         if op[0] == "push":
             form, k = op[2], len(pubs) + 1
-            t_new = t_now + timedelta(minutes=op[1]) if pubs else hs.T0
+            t_new = t_now + op[1] * unit if pubs else hs.T0
             base = ((np.arange(n, dtype=float).reshape(shape) + 1000.0 * k) if shape else np.array(1000.0 * k)) * vscale
             exp_vals, exp_mask = base, (fixed if fixed is not None else np.zeros(shape, bool))
             refuse = None
@@ -214,9 +219,9 @@ def _check(case, ctx, memloc):
         oldest, newest = link.out.data[0][0], pubs[-1][0]
         mode = op[1]
         if mode == "after":
-            t = newest + timedelta(minutes=op[2])
+            t = newest + op[2] * unit
         elif mode == "before":
-            t = oldest - timedelta(minutes=op[2])
+            t = oldest - op[2] * unit
         else:
             ret = [p for p in pubs if p[0] >= oldest]
             i = op[2] % len(ret)
@@ -317,7 +322,7 @@ def case_st(draw):
         cgrid = hg.same_geometry_layout(grid[1], draw(st.sampled_from("CF")), draw(st.booleans()), [draw(st.booleans()) and n > 1 for n in lens])
     limit = draw(st.sampled_from([None, None, None, None, 0, 0.5, 1.5, 1.5, 2.5, 3.5]))
     return {"grid": grid, "pu": pu, "cu": cu, "mask": mask, "chain": chain, "ops": ops, "cgrid": cgrid, "limit": limit,
-            "vexp": draw(st.sampled_from([0, 0, 0, -9, 9]))}
+            "vexp": draw(st.sampled_from([0, 0, 0, -9, 9])), "unit_us": draw(st.sampled_from([None, None, None, 1000000, 50000, 1]))}
 
 
 @st.composite
@@ -339,7 +344,7 @@ def backlog_case(draw):
             for _ in range(draw(st.integers(1, 40))):
                 ops.append(["push", draw(st.sampled_from([10, 20, 7])), form])
     return {"grid": grid, "pu": pu, "cu": cu, "mask": "FLEX", "chain": draw(st.sampled_from([[], [], [["scale", 1.0]]])), "ops": ops,
-            "cgrid": None, "limit": draw(st.sampled_from([None, None, 0, 40.5])), "vexp": 0}
+            "cgrid": None, "limit": draw(st.sampled_from([None, None, 0, 40.5])), "vexp": 0, "unit_us": draw(st.sampled_from([None, None, 50000, 1]))}
 
 
 def parts():
